@@ -52,6 +52,8 @@ var (
 	rtForward = []byte{0x60, 0x00, 0x60, 0x00, 0x60, 0x00, 0x60, 0x00, 0x34, 0x60, 0x00, 0x35, 0x5a, 0xf1, 0x00} // call(gas, calldata[0], callvalue)
 	rtLog     = []byte{0x60, 0x00, 0x60, 0x00, 0xa0, 0x00}                                                       // log0
 	rtLoop    = []byte{0x5b, 0x60, 0x00, 0x56}                                                                   // jumpdest push0 jump
+	// keeps what it is sent; called without value it pays its whole balance to the caller
+	rtPayout = []byte{0x34, 0x60, 0x11, 0x57, 0x60, 0x00, 0x60, 0x00, 0x60, 0x00, 0x60, 0x00, 0x30, 0x31, 0x33, 0x5a, 0xf1, 0x5b, 0x00}
 )
 
 // OLVMTx builds a signed OLVM transaction.
@@ -217,6 +219,33 @@ func (o *OLVM) Plan(c *Ctx) []hist.TxSpec {
 			second := hist.TxSpec{Kind: "OLVM", Bytes: bz, Note: "second of two transactions with the same nonce (invalid by the time it is delivered)", Signers: []string{es[0].Addr.String()}}
 			second.Meta = map[string]string{"from": es[0].Addr.String(), "nonce": fmt.Sprint(n), "value": "222", "to": keys.Address(to.Bytes()).String(), "data": "", "expect": "fail"}
 			out = append(out, first, second)
+		}
+	case 13, 29:
+		// an account spends everything it holds: value = balance - gas limit * price, all the gas is used
+		{
+			a := es[len(es)-1]
+			to := ethcmn.BytesToAddress(es[0].Addr)
+			fee := new(big.Int).Mul(big.NewInt(21000), big.NewInt(1000000000))
+			if v := new(big.Int).Sub(BalanceOf(c.S, a.Addr, "OLT"), fee); v.Sign() > 0 {
+				out = append(out, o.tx(c, a, &to, v, nil, 21000, "plain transfer of everything the sender holds (balance ends at exactly zero)"))
+			}
+		}
+	case 14, 30:
+		{
+			u := c.W.Users[0]
+			out = append(out, Build(c, "SEND", txb.Send(u.Addr, es[len(es)-1].Addr, "OLT", "25"), "native transfer refunds the emptied account", u))
+		}
+	case 21:
+		out = append(out, o.create(c, es[0], "payout", rtPayout, big.NewInt(0)))
+	case 22, 25:
+		if a, ok := o.contracts["payout"]; ok {
+			out = append(out, o.tx(c, es[1], &a, big.NewInt(5000+int64(o.n)), nil, 60000, "deposit into the paying-out contract"))
+		}
+	case 23, 24, 26:
+		if a, ok := o.contracts["payout"]; ok {
+			sp := o.tx(c, es[1], &a, big.NewInt(0), nil, 90000, "the contract pays out its whole balance to the caller")
+			sp.Meta["payout"] = keys.Address(a.Bytes()).String()
+			out = append(out, sp)
 		}
 	case 9, 17:
 		// fill a storage slot ...
